@@ -60,7 +60,8 @@ class C07(core.Prop):
         'max_exact', 'length_exact', 'sign_strongest', 'maxNulls_iff', 'noDuplicates_iff', 'allowedValues_iff', 'uniques_exact']]
     quick_n = 400
     thorough_n = 20000
-    rule = ('cases: single columns of 0..26 rows for every recognised family (int8/int64/uint8/uint64/Int64/UInt8, '
+    rule = ('cases: SQLite tables of 1..4 columns (integer / real / text / varchar / boolean / datetime, odd column names) '
+            'discovered through discover_db_table, and single columns of 0..26 rows for every recognised family (int8/int64/uint8/uint64/Int64/UInt8, '
             'float32/64/Float64 incl. inf, bool/boolean/object-bool, object-str/string/category with up to 25 '
             'categories, datetime64[s|ms|us|ns], tz-aware, date objects, str), any null pattern, few-distinct and '
             'many-distinct value sets; discovery with and without rex. non-trivial = column with >= 2 non-null cells; '
@@ -69,7 +70,8 @@ class C07(core.Prop):
         'pandas aggregates (min/max/nunique/str.len/count) are tied to the reference aggregates by the cx.calc op; '
         'binary floating point is not modelled (reals are exact rationals of the float values)',
         'rexpy enters discovery as a parameter (its output is replaced by indices)',
-        'SQLite discovery is exercised by the C08 check',
+        'SQLite tables (a quarter of the cases) are discovered through discover_db_table with SQLite evaluating the aggregates; '
+        'SQLite itself is not modelled',
     ]
 
     def corpus(self):
